@@ -538,6 +538,23 @@ theorem InBody.slice {s : St} {off : Nat} {d : List Nat} (pre : List Nat) (hpre 
 
 /-! ### `write_images` -/
 
+/-- pointwise relation of two lists of the same length -/
+inductive All2 {α β : Type} (R : α → β → Prop) : List α → List β → Prop
+  | nil : All2 R [] []
+  | cons {a : α} {b : β} {as : List α} {bs : List β} : R a b → All2 R as bs → All2 R (a :: as) (b :: bs)
+
+theorem All2.length {α β : Type} {R : α → β → Prop} {as : List α} {bs : List β} (h : All2 R as bs) :
+    as.length = bs.length := by
+  induction h with
+  | nil => rfl
+  | cons _ _ ih => simp [ih]
+
+theorem All2.imp {α β : Type} {R S : α → β → Prop} {as : List α} {bs : List β} (f : ∀ a b, R a b → S a b)
+    (h : All2 R as bs) : All2 S as bs := by
+  induction h with
+  | nil => exact .nil
+  | cons h1 _ ih => exact .cons (f _ _ h1) ih
+
 def imgFlags (img : Img) : Int := if img.name = [99, 111, 100, 101] then 5 else 6
 
 /-- the program header `write_images` creates for an image whose data went to file offset `off` -/
@@ -621,14 +638,14 @@ theorem writeImage_spec {s s' : St} {img : Img} (h : s.writeImage {} img = .ok s
       omega
 
 theorem writeImages_spec : ∀ (imgs : List Img) (s s' : St), writeImages {} s imgs = .ok s' →
-    Grow s s' ∧ ∃ phs, s'.phdrs = s.phdrs ++ phs ∧ List.Forall₂ (SegOK s') imgs phs := by
+    Grow s s' ∧ ∃ phs, s'.phdrs = s.phdrs ++ phs ∧ All2 (SegOK s') imgs phs := by
   intro imgs
   induction imgs with
   | nil =>
     intro s s' h
     simp [writeImages] at h
     subst h
-    exact ⟨Grow.refl s, [], by simp, List.Forall₂.nil⟩
+    exact ⟨Grow.refl s, [], by simp, All2.nil⟩
   | cons img rest ih =>
     intro s s' h
     simp only [writeImages] at h
@@ -637,7 +654,7 @@ theorem writeImages_spec : ∀ (imgs : List Img) (s s' : St), writeImages {} s i
     · rename_i s1 h1
       have ⟨g1, ph, hp, hs⟩ := writeImage_spec h1
       have ⟨g2, phs, hps, hf⟩ := ih _ _ h
-      refine ⟨g1.trans g2, ph :: phs, by rw [hps, hp]; simp, List.Forall₂.cons (hs.grow g2) hf⟩
+      refine ⟨g1.trans g2, ph :: phs, by rw [hps, hp]; simp, All2.cons (hs.grow g2) hf⟩
 
 /-! ### inversion of `export_object` -/
 
@@ -689,5 +706,508 @@ theorem exportObject_inv {L : Layouts} {o : Obj} {t : EType} {file : List Nat}
                       injection h with h
                       exact ⟨s1, s2, s3, s4, s6, entry, shstrndx, ehb, phb, h1, h2, h3, h4, h6, h7, h8, h9,
                         by simpa using h10, h11, h.symm⟩
+
+/-! ### reading named fields back -/
+
+theorem get_recOf (fs : List Field) (h : Hdr) (n : FName) (f : Field)
+    (hfind : fs.find? (fun g => g.name = n) = some f) :
+    Rec.get (recOf fs h) n = rawOf f.fmt.size (h.get n) := by
+  induction fs with
+  | nil => simp at hfind
+  | cons g gs ih =>
+    simp only [List.find?_cons] at hfind
+    by_cases hg : g.name = n
+    · simp [hg] at hfind
+      subst hfind
+      simp [recOf, Rec.get, hg]
+    · simp [hg] at hfind
+      simp only [recOf, List.map_cons, Rec.get, hg, if_false]
+      exact ih hfind
+
+/-- an unsigned field of a record that was written successfully reads back as the value itself -/
+theorem get_recOf_unsigned {fs : List Field} {h : Hdr} {n : FName} {f : Field}
+    (hfind : fs.find? (fun g => g.name = n) = some f) (hs : f.fmt.signed = false)
+    (hfits : ∀ g ∈ fs, fits g.fmt (h.get g.name) = true) :
+    ((Rec.get (recOf fs h) n : Nat) : Int) = h.get n := by
+  rw [get_recOf fs h n f hfind]
+  have hm : f ∈ fs := List.mem_of_find?_eq_some hfind
+  have hn : f.name = n := by simpa using List.find?_some hfind
+  have := hfits f hm
+  rw [hn] at this
+  exact (rawOf_of_fits_unsigned hs this).2
+
+/-! ### the file prefix -/
+
+theorem ident_length (a : Arch) : (ident a).length = 16 := by
+  cases a <;> rfl
+
+theorem readIdent_ident (a : Arch) (rest : List Nat) : readIdent (ident a ++ rest) = .ok (a.cls, a.en) := by
+  cases a <;> simp [readIdent, ident, zeros, Arch.cls, Arch.en, List.replicate]
+
+theorem writeRelaTable_post {L : Layouts} {o : Obj} {s s' : St} (h : writeRelaTable L o s = .ok s') : Post s s' :=
+  writeRelaGroups_post _ _ _ h
+
+/-- from the first step's result to the final state only appends happen and no program header is added -/
+theorem export_chain {L : Layouts} {o : Obj} {t : EType} {s1 s2 s3 s4 s6 : St}
+    (h2 : writeSections s1 o.sections = .ok s2)
+    (h3 : writeSymbolTable {} L o s2 = .ok s3)
+    (h4 : (if t == .rel then writeRelaTable L o s3 else .ok s3) = .ok s4)
+    (h6 : writeSectionHeaders L (writeStringTable s4) = .ok s6) : Post s1 s6 := by
+  have p2 := writeSections_post _ _ _ h2
+  have p3 := writeSymbolTable_post h3
+  have p4 : Post s3 s4 := by
+    split at h4
+    · exact writeRelaTable_post h4
+    · injection h4 with h4; subst h4; exact Post.refl _
+  have p5 := writeStringTable_post s4
+  have p6 := writeSectionHeaders_post h6
+  exact Post.trans p2 (Post.trans p3 (Post.trans p4 (Post.trans p5 p6)))
+
+/-! ### program headers read back as segments that hold the images -/
+
+/-- what an ELF reader must see of a loadable segment written for image `img` -/
+def SegFaithful (img : Img) (sg : Segment) : Prop :=
+  sg.type = PT_LOAD ∧ sg.vaddr = img.address ∧ sg.paddr = img.address ∧ img.data = .ok sg.data ∧
+  sg.filesz = sg.data.length ∧ sg.memsz = sg.data.length ∧ sg.align = 4096 ∧
+  sg.offset % 4096 = sg.vaddr % 4096 ∧ (sg.flags : Int) = imgFlags img
+
+theorem mkSegment_phdrOf (c : Cls) (file pre : List Nat) (s : St) (img : Img) (ph : Hdr)
+    (hpre : pre.length = s.base) (hfile : file = pre ++ s.body) (hok : SegOK s img ph)
+    (hfits : ∀ f ∈ phdr c, fits f.fmt (ph.get f.name) = true) :
+    ∃ sg, mkSegment file (recOf (phdr c) ph) = .ok sg ∧ SegFaithful img sg := by
+  obtain ⟨d, off, hd, hin, hcong, hph⟩ := hok
+  subst hph
+  have hsl := hin.slice pre hpre
+  rw [← hfile] at hsl
+  have g_type := get_recOf_unsigned (fs := phdr c) (n := .p_type) (f := ⟨.p_type, .I⟩) (by cases c <;> rfl) rfl hfits
+  have g_flags := get_recOf_unsigned (fs := phdr c) (n := .p_flags) (f := ⟨.p_flags, .I⟩) (by cases c <;> rfl) rfl hfits
+  have g_off := get_recOf_unsigned (fs := phdr c) (n := .p_offset) (f := ⟨.p_offset, wordFmt c⟩) (by cases c <;> rfl)
+    (by cases c <;> rfl) hfits
+  have g_va := get_recOf_unsigned (fs := phdr c) (n := .p_vaddr) (f := ⟨.p_vaddr, wordFmt c⟩) (by cases c <;> rfl)
+    (by cases c <;> rfl) hfits
+  have g_pa := get_recOf_unsigned (fs := phdr c) (n := .p_paddr) (f := ⟨.p_paddr, wordFmt c⟩) (by cases c <;> rfl)
+    (by cases c <;> rfl) hfits
+  have g_fs := get_recOf_unsigned (fs := phdr c) (n := .p_filesz) (f := ⟨.p_filesz, wordFmt c⟩) (by cases c <;> rfl)
+    (by cases c <;> rfl) hfits
+  have g_ms := get_recOf_unsigned (fs := phdr c) (n := .p_memsz) (f := ⟨.p_memsz, wordFmt c⟩) (by cases c <;> rfl)
+    (by cases c <;> rfl) hfits
+  have g_al := get_recOf_unsigned (fs := phdr c) (n := .p_align) (f := ⟨.p_align, wordFmt c⟩) (by cases c <;> rfl)
+    (by cases c <;> rfl) hfits
+  simp only [phdrOf, Hdr.get, reduceCtorEq, if_false, if_true] at g_type g_flags g_off g_va g_pa g_fs g_ms g_al
+  have e_type : Rec.get (recOf (phdr c) (phdrOf img off d.length)) .p_type = 1 := by
+    have : ((Rec.get (recOf (phdr c) (phdrOf img off d.length)) .p_type : Nat) : Int) = ((1 : Nat) : Int) := g_type
+    exact Int.ofNat_inj.mp this
+  have e_off : Rec.get (recOf (phdr c) (phdrOf img off d.length)) .p_offset = off := Int.ofNat_inj.mp g_off
+  have e_va : Rec.get (recOf (phdr c) (phdrOf img off d.length)) .p_vaddr = img.address := Int.ofNat_inj.mp g_va
+  have e_pa : Rec.get (recOf (phdr c) (phdrOf img off d.length)) .p_paddr = img.address := Int.ofNat_inj.mp g_pa
+  have e_fs : Rec.get (recOf (phdr c) (phdrOf img off d.length)) .p_filesz = d.length := Int.ofNat_inj.mp g_fs
+  have e_ms : Rec.get (recOf (phdr c) (phdrOf img off d.length)) .p_memsz = d.length := Int.ofNat_inj.mp g_ms
+  have e_al : Rec.get (recOf (phdr c) (phdrOf img off d.length)) .p_align = 4096 := by
+    have : ((Rec.get (recOf (phdr c) (phdrOf img off d.length)) .p_align : Nat) : Int) = ((4096 : Nat) : Int) := g_al
+    exact Int.ofNat_inj.mp this
+  unfold mkSegment
+  rw [e_off, e_fs, hsl]
+  simp only [e_type, e_ms, e_al, e_va, e_off, e_fs, e_pa]
+  have hp : isPow2 4096 = true := by decide
+  have hc : img.address % 4096 = off % 4096 := hcong.symm
+  simp [PT_LOAD, hp, hc]
+  refine ⟨rfl, rfl, rfl, hd, rfl, rfl, rfl, hcong, g_flags⟩
+
+theorem segments_of_all2 (c : Cls) (file pre : List Nat) (s : St) (hpre : pre.length = s.base)
+    (hfile : file = pre ++ s.body) : ∀ (imgs : List Img) (phs : List Hdr), All2 (SegOK s) imgs phs →
+    (∀ ph ∈ phs, ∀ f ∈ phdr c, fits f.fmt (ph.get f.name) = true) →
+    ∃ sgs, mapE (mkSegment file) (phs.map (recOf (phdr c))) = .ok sgs ∧ All2 SegFaithful imgs sgs := by
+  intro imgs phs h
+  induction h with
+  | nil => intro _; exact ⟨[], rfl, .nil⟩
+  | cons h1 _ ih =>
+    intro hf
+    obtain ⟨sg, e1, e2⟩ := mkSegment_phdrOf c file pre s _ _ hpre hfile h1 (hf _ (by simp))
+    obtain ⟨sgs, e3, e4⟩ := ih (fun ph hph => hf ph (by simp [hph]))
+    exact ⟨sg :: sgs, by simp [mapE, e1, e3], .cons e2 e4⟩
+
+/-! ### the ELF header of a written file -/
+
+/-- everything the later theorems need about a successfully written file, in one place -/
+theorem export_facts {o : Obj} {t : EType} {file : List Nat}
+    (h : exportObject {} (gabiLayouts o.arch.cls o.arch.en) o t = .ok file) :
+    ∃ (s6 : St) (entry : Int) (shstrndx : Nat) (ehb phb : List Nat) (phs : List Hdr),
+      let L := gabiLayouts o.arch.cls o.arch.en
+      let eh := elfHeader L o t s6 entry shstrndx
+      file = ident o.arch ++ ehb ++ phb ++ s6.body ∧
+      (ident o.arch ++ ehb ++ phb).length = s6.base ∧
+      ehb.length = recSize (ehdr o.arch.cls) ∧
+      entryValue o t = .ok entry ∧
+      assoc strtabName s6.secnums = some shstrndx ∧
+      readRec o.arch.en (ehdr o.arch.cls) (ehb ++ (phb ++ s6.body)) = some (recOf (ehdr o.arch.cls) eh) ∧
+      (∀ f ∈ ehdr o.arch.cls, fits f.fmt (eh.get f.name) = true) ∧
+      s6.phdrs = phs ∧ phs.length = phnum o t ∧
+      serializeAll ((phdr o.arch.cls).map (toP o.arch.en)) phs = .ok phb ∧
+      (withImages o t = true → All2 (SegOK s6) o.images phs) := by
+  obtain ⟨s1, s2, s3, s4, s6, entry, shstrndx, ehb, phb, h1, h2, h3, h4, h6, h7, h8, h9, h10, h11, hfile⟩ :=
+    exportObject_inv h
+  have pc := export_chain h2 h3 h4 h6
+  have ⟨r1, r2, r3⟩ := serialize_read o.arch.en (ehdr o.arch.cls) _ ehb (phb ++ s6.body) h9
+  have ⟨t1, t2, t3⟩ := serializeAll_read o.arch.en (phdr o.arch.cls) s6.phdrs phb [] [] h11
+  -- the first step
+  have hfirst : Grow (initState (gabiLayouts o.arch.cls o.arch.en) o t) s1 ∧
+      (withImages o t = true → All2 (SegOK s1) o.images s1.phdrs) := by
+    split at h1
+    · rename_i hw
+      have ⟨g, phs, hp, ha⟩ := writeImages_spec _ _ _ h1
+      refine ⟨g, fun _ => ?_⟩
+      simp [initState] at hp
+      rw [hp]; exact ha
+    · rename_i hw
+      injection h1 with h1
+      subst h1
+      exact ⟨Grow.refl _, fun hh => absurd hh hw⟩
+  have hbase : s6.base = 16 + recSize (ehdr o.arch.cls) + phnum o t * phentsize (gabiLayouts o.arch.cls o.arch.en) o t := by
+    rw [pc.1, hfirst.1.1]
+    simp [initState, gabiLayouts, hsize_map]
+  refine ⟨s6, entry, shstrndx, ehb, phb, s6.phdrs, hfile, ?_, r2, h7, h8, r1, r3, rfl, h10, h11, ?_⟩
+  · simp only [List.length_append, ident_length, r2, t2, hbase, h10]
+    unfold phentsize phnum
+    split
+    · simp [gabiLayouts, hsize_map]
+    · simp
+  · intro hw
+    rw [pc.2.2]
+    exact All2.imp (fun _ _ hs => hs.grow pc.grow) (hfirst.2 hw)
+
+theorem file_drop16 (a : Arch) (rest : List Nat) : (ident a ++ rest).drop 16 = rest := by
+  have := ident_length a
+  rw [← this]; simp
+
+/-- field `n` (unsigned, present in the ELF header layout) of the header that was written -/
+theorem ehdr_field {c : Cls} {eh : Hdr} (n : FName) (f : Field)
+    (hfind : (ehdr c).find? (fun g => g.name = n) = some f) (hs : f.fmt.signed = false)
+    (hfits : ∀ g ∈ ehdr c, fits g.fmt (eh.get g.name) = true) :
+    ((Rec.get (recOf (ehdr c) eh) n : Nat) : Int) = eh.get n :=
+  get_recOf_unsigned hfind hs hfits
+
+theorem readEhdr_of_facts {o : Obj} {t : EType} {file ehb phb : List Nat} {s6 : St} {entry : Int} {shstrndx : Nat}
+    (hfile : file = ident o.arch ++ ehb ++ phb ++ s6.body)
+    (hread : readRec o.arch.en (ehdr o.arch.cls) (ehb ++ (phb ++ s6.body)) =
+      some (recOf (ehdr o.arch.cls) (elfHeader (gabiLayouts o.arch.cls o.arch.en) o t s6 entry shstrndx)))
+    (hfits : ∀ f ∈ ehdr o.arch.cls,
+      fits f.fmt ((elfHeader (gabiLayouts o.arch.cls o.arch.en) o t s6 entry shstrndx).get f.name) = true) :
+    readIdent file = .ok (o.arch.cls, o.arch.en) ∧
+    readEhdr file o.arch.cls o.arch.en =
+      .ok (recOf (ehdr o.arch.cls) (elfHeader (gabiLayouts o.arch.cls o.arch.en) o t s6 entry shstrndx)) := by
+  refine ⟨?_, ?_⟩
+  · rw [hfile, List.append_assoc, List.append_assoc]
+    exact readIdent_ident _ _
+  · unfold readEhdr
+    have hd : file.drop 16 = ehb ++ (phb ++ s6.body) := by
+      rw [hfile, List.append_assoc, List.append_assoc]
+      exact file_drop16 _ _
+    rw [hd, hread]
+    have g_ver := ehdr_field (c := o.arch.cls) .e_version ⟨.e_version, .I⟩ (by cases o.arch.cls <;> rfl) rfl hfits
+    have g_sz := ehdr_field (c := o.arch.cls) .e_ehsize ⟨.e_ehsize, .H⟩ (by cases o.arch.cls <;> rfl) rfl hfits
+    have v_ver : (elfHeader (gabiLayouts o.arch.cls o.arch.en) o t s6 entry shstrndx).get .e_version = 1 := rfl
+    have v_sz : (elfHeader (gabiLayouts o.arch.cls o.arch.en) o t s6 entry shstrndx).get .e_ehsize
+        = ((16 + hsize (gabiLayouts o.arch.cls o.arch.en).ehdr : Nat) : Int) := by
+      simp [elfHeader, Hdr.get]
+    rw [v_ver] at g_ver
+    rw [v_sz] at g_sz
+    have e_ver := Int.ofNat_inj.mp (show ((_ : Nat) : Int) = ((1 : Nat) : Int) from g_ver)
+    have e_sz := Int.ofNat_inj.mp g_sz
+    have h2 : hsize (gabiLayouts o.arch.cls o.arch.en).ehdr = recSize (ehdr o.arch.cls) := by
+      simp [gabiLayouts, hsize_map]
+    rw [h2] at e_sz
+    simp [e_ver, e_sz]
+
+theorem export_readEhdr {o : Obj} {t : EType} {file : List Nat}
+    (h : exportObject {} (gabiLayouts o.arch.cls o.arch.en) o t = .ok file) :
+    ∃ (s6 : St) (entry : Int) (shstrndx : Nat),
+      let eh := elfHeader (gabiLayouts o.arch.cls o.arch.en) o t s6 entry shstrndx
+      readIdent file = .ok (o.arch.cls, o.arch.en) ∧
+      readEhdr file o.arch.cls o.arch.en = .ok (recOf (ehdr o.arch.cls) eh) ∧
+      entryValue o t = .ok entry ∧
+      (∀ f ∈ ehdr o.arch.cls, fits f.fmt (eh.get f.name) = true) := by
+  obtain ⟨s6, entry, shstrndx, ehb, phb, phs, hfile, hlen, hel, hent, hstr, hread, hfits, _, _, _, _⟩ := export_facts h
+  have ⟨a, b⟩ := readEhdr_of_facts hfile hread hfits
+  exact ⟨s6, entry, shstrndx, a, b, hent, hfits⟩
+
+/-- executables: the reader's segments are the images -/
+theorem export_segments {o : Obj} {file : List Nat}
+    (h : exportObject {} (gabiLayouts o.arch.cls o.arch.en) o .exec = .ok file) :
+    ∃ hd sgs, readEhdr file o.arch.cls o.arch.en = .ok hd ∧
+      readSegments file o.arch.cls o.arch.en hd = .ok sgs ∧ All2 SegFaithful o.images sgs := by
+  obtain ⟨s6, entry, shstrndx, ehb, phb, phs, hfile, hlen, hel, hent, hstr, hread, hfits, hph, hphn, hser, hall⟩ :=
+    export_facts h
+  have ⟨_, hrd⟩ := readEhdr_of_facts hfile hread hfits
+  have g_phnum := ehdr_field (c := o.arch.cls) .e_phnum ⟨.e_phnum, .H⟩ (by cases o.arch.cls <;> rfl) rfl hfits
+  have g_phent := ehdr_field (c := o.arch.cls) .e_phentsize ⟨.e_phentsize, .H⟩ (by cases o.arch.cls <;> rfl) rfl hfits
+  have g_phoff := ehdr_field (c := o.arch.cls) .e_phoff ⟨.e_phoff, wordFmt o.arch.cls⟩ (by cases o.arch.cls <;> rfl)
+    (by cases o.arch.cls <;> rfl) hfits
+  have v_phnum : (elfHeader (gabiLayouts o.arch.cls o.arch.en) o .exec s6 entry shstrndx).get .e_phnum
+      = ((phnum o .exec : Nat) : Int) := by simp [elfHeader, Hdr.get]
+  have v_phent : (elfHeader (gabiLayouts o.arch.cls o.arch.en) o .exec s6 entry shstrndx).get .e_phentsize
+      = ((phentsize (gabiLayouts o.arch.cls o.arch.en) o .exec : Nat) : Int) := by simp [elfHeader, Hdr.get]
+  have v_phoff : (elfHeader (gabiLayouts o.arch.cls o.arch.en) o .exec s6 entry shstrndx).get .e_phoff
+      = ((phoff (gabiLayouts o.arch.cls o.arch.en) o .exec : Nat) : Int) := by simp [elfHeader, Hdr.get]
+  rw [v_phnum] at g_phnum
+  rw [v_phent] at g_phent
+  rw [v_phoff] at g_phoff
+  have e_phnum := Int.ofNat_inj.mp g_phnum
+  have e_phent := Int.ofNat_inj.mp g_phent
+  have e_phoff := Int.ofNat_inj.mp g_phoff
+  have ⟨t1, t2, t3⟩ := serializeAll_read o.arch.en (phdr o.arch.cls) phs phb (ident o.arch ++ ehb) s6.body hser
+  by_cases hw : withImages o .exec = true
+  · have hall' := hall hw
+    have ⟨sgs, m1, m2⟩ := segments_of_all2 o.arch.cls file (ident o.arch ++ ehb ++ phb) s6 hlen hfile o.images phs hall' t3
+    have hn : phnum o .exec = o.images.length := by simp [phnum, hw]
+    have hne : o.images ≠ [] := by
+      intro he; simp [withImages, he] at hw
+    have hn0 : ¬ phnum o .exec = 0 := by
+      rw [hn]; intro h0; exact hne (List.length_eq_zero_iff.mp h0)
+    have hps : phentsize (gabiLayouts o.arch.cls o.arch.en) o .exec = recSize (phdr o.arch.cls) := by
+      simp [phentsize, hw, gabiLayouts, hsize_map]
+    have hpo : phoff (gabiLayouts o.arch.cls o.arch.en) o .exec = (ident o.arch ++ ehb).length := by
+      simp [phoff, hw, gabiLayouts, hsize_map, ident_length, hel]
+    have hlen2 : ¬ file.length < (ident o.arch ++ ehb).length + phnum o .exec * recSize (phdr o.arch.cls) := by
+      rw [hfile, ← hphn]
+      simp only [List.length_append, t2]
+      omega
+    have ht : readTable file o.arch.en (phdr o.arch.cls) (recSize (phdr o.arch.cls)) (ident o.arch ++ ehb).length
+        (phnum o .exec) = some (phs.map (recOf (phdr o.arch.cls))) := by
+      rw [hfile, ← hphn]; exact t1
+    refine ⟨_, sgs, hrd, ?_, m2⟩
+    unfold readSegments
+    simp only [e_phnum, e_phent, e_phoff]
+    rw [if_neg hn0, hps, if_neg (by simp), hpo, if_neg hlen2, ht]
+    exact m1
+  · have hn : phnum o .exec = 0 := by simp [phnum, hw]
+    have himg : o.images = [] := by
+      cases hi : o.images with
+      | nil => rfl
+      | cons a b => simp [withImages, hi] at hw
+    refine ⟨_, [], hrd, ?_, by rw [himg]; exact .nil⟩
+    unfold readSegments
+    simp only [e_phnum]
+    rw [if_pos hn]
+
+/-! ### signed fields (r_addend) -/
+
+theorem ts32 (v : Int) (h1 : -2147483648 ≤ v) (h2 : v < 2147483648) :
+    toSigned 32 ((v % 4294967296).toNat) = v := by
+  unfold toSigned
+  simp only [Nat.reduceSub, Nat.reducePow, Int.reducePow]
+  split <;> omega
+
+theorem ts64 (v : Int) (h1 : -9223372036854775808 ≤ v) (h2 : v < 9223372036854775808) :
+    toSigned 64 ((v % 18446744073709551616).toNat) = v := by
+  unfold toSigned
+  simp only [Nat.reduceSub, Nat.reducePow, Int.reducePow]
+  split <;> omega
+
+/-- a signed field that `struct.pack` accepted reads back (two's complement) as the value itself -/
+theorem toSigned_rawOf {f : Fmt} {v : Int} (hs : f.signed = true) (h : fits f v = true) :
+    toSigned (8 * f.size) (rawOf f.size v) = v := by
+  cases f <;> simp [Fmt.signed] at hs
+  · simp [fits, Fmt.signed, Fmt.size] at h
+    exact ts32 v (of_decide_eq_true h).1 (of_decide_eq_true h).2
+  · simp [fits, Fmt.signed, Fmt.size] at h
+    exact ts64 v (of_decide_eq_true h).1 (of_decide_eq_true h).2
+
+/-! ### symbol order -/
+
+theorem orderSymbols_perm (syms : List Sym) : (orderSymbols syms).Perm syms := by
+  unfold orderSymbols
+  have := List.filter_append_perm (fun s : Sym => !s.isGlobal) syms
+  refine List.Perm.trans ?_ this
+  apply List.Perm.append_left
+  have e : (fun s : Sym => s.isGlobal) = (fun s : Sym => !(fun s : Sym => !s.isGlobal) s) := by
+    funext s; simp
+  rw [e]
+
+theorem orderSymbols_locals_first (syms : List Sym) :
+    let n := (syms.filter (fun s => !s.isGlobal)).length
+    (∀ s ∈ (orderSymbols syms).take n, s.isGlobal = false) ∧
+    (∀ s ∈ (orderSymbols syms).drop n, s.isGlobal = true) := by
+  simp only [orderSymbols]
+  constructor
+  · intro s hs
+    rw [List.take_left] at hs
+    simpa using (List.mem_filter.mp hs).2
+  · intro s hs
+    rw [List.drop_left] at hs
+    simpa using (List.mem_filter.mp hs).2
+
+/-! ### what the reader's segments say about the file -/
+
+theorem slice_getElem {file d : List Nat} {off n : Nat} (h : slice file off n = some d) (i : Nat) (hi : i < n) :
+    file[off + i]? = d[i]? := by
+  unfold Spec.Elf.slice at h
+  split at h
+  · injection h with h
+    subst h
+    rw [List.getElem?_take_of_lt hi, List.getElem?_drop]
+  · cases h
+
+theorem mkSegment_data {file : List Nat} {p : Rec} {sg : Segment} (h : mkSegment file p = .ok sg) :
+    slice file sg.offset sg.filesz = some sg.data := by
+  unfold mkSegment at h
+  split at h
+  · cases h
+  · rename_i d hd
+    simp only at h
+    split at h
+    · cases h
+    · split at h
+      · cases h
+      · split at h
+        · cases h
+        · injection h with h
+          subst h
+          exact hd
+
+theorem mapE_mem {α β ε : Type} {f : α → Except ε β} : ∀ {as : List α} {bs : List β}, mapE f as = .ok bs →
+    ∀ b ∈ bs, ∃ a ∈ as, f a = .ok b := by
+  intro as
+  induction as with
+  | nil => intro bs h b hb; simp [mapE] at h; subst h; simp at hb
+  | cons a rest ih =>
+    intro bs h b hb
+    simp only [mapE] at h
+    split at h
+    · cases h
+    · rename_i b0 h0
+      split at h
+      · cases h
+      · rename_i bs0 h1
+        injection h with h
+        subst h
+        simp at hb
+        rcases hb with hb | hb
+        · subst hb; exact ⟨a, by simp, h0⟩
+        · obtain ⟨a', ha', hf⟩ := ih h1 b hb
+          exact ⟨a', by simp [ha'], hf⟩
+
+theorem readSegments_data {file : List Nat} {c : Cls} {e : End} {hd : Rec} {sgs : List Segment}
+    (h : readSegments file c e hd = .ok sgs) : ∀ sg ∈ sgs, slice file sg.offset sg.filesz = some sg.data := by
+  unfold readSegments at h
+  simp only at h
+  split at h
+  · injection h with h; subst h; simp
+  · split at h
+    · cases h
+    · split at h
+      · cases h
+      · split at h
+        · cases h
+        · intro sg hsg
+          obtain ⟨p, _, hp⟩ := mapE_mem h sg hsg
+          exact mkSegment_data hp
+
+/-- with `p_offset ≡ p_vaddr (mod page)`, mapping whole file pages shows the segment's bytes at its addresses -/
+theorem pageMapped_eq {file : List Nat} {sg : Segment} (hs : slice file sg.offset sg.filesz = some sg.data)
+    (hc : sg.offset % 4096 = sg.vaddr % 4096) (i : Nat) (hi : i < sg.filesz) :
+    pageMappedByte file 4096 sg (sg.vaddr + i) = sg.data[i]? := by
+  unfold pageMappedByte
+  rw [← slice_getElem hs i hi]
+  congr 1
+  omega
+
+/-! ### concrete objects for the examples in Props/C17.lean -/
+
+/-- the layouts ppci used before commit ec1546e: every field packed in native (little-endian) order -/
+def legacyLayouts (c : Cls) : Layouts :=
+  let n (f : Field) : PField := ⟨f.name, .native, f.fmt⟩
+  { ehdr := (ehdr c).map n, phdr := (phdr c).map n, shdr := (shdr c).map n,
+    sym := (sym c).map n, rela := (rela c).map n, dyn := (dyn c).map n }
+
+def codeN : List Nat := [99, 111, 100, 101]
+
+/-- a relocatable object: two sections, a local, a global in the 2nd section, an absolute and an undefined symbol -/
+def tinyRel (a : Arch) : Obj :=
+  { arch := a,
+    sections := [⟨codeN, 0, [1, 2, 3, 4, 5], 4⟩, ⟨dataName, 0, [9, 8], 8⟩],
+    symbols := [⟨0, [103], true, some 1, some dataName, .object, 4⟩, ⟨1, [108], false, some 3, some codeN, .func, 0⟩,
+                ⟨2, [97], true, some 4660, none, .object, 0⟩, ⟨3, [117], true, none, none, .func, 0⟩],
+    relocs := [⟨.ok 2, 0, codeN, 1, -4⟩, ⟨.ok 1, 1, dataName, 0, 7⟩],
+    images := [], entry := none }
+
+/-- an executable with one image at the non page-aligned address 0x10004 -/
+def tinyExec : Obj :=
+  { arch := .arm,
+    sections := [⟨codeN, 0x10004, [1, 2, 3, 4], 4⟩],
+    symbols := [⟨0, [103], true, some 2, some codeN, .func, 0⟩],
+    relocs := [],
+    images := [⟨codeN, 0x10004, [⟨codeN, 0x10004, [1, 2, 3, 4], 4⟩]⟩], entry := some 0 }
+
+structure SecRow where
+  name : List Nat
+  type : Nat
+  addr : Nat
+  data : List Nat
+  deriving DecidableEq, Repr
+
+structure SymRow where
+  name : List Nat
+  value : Nat
+  bind : Nat
+  type : Nat
+  shndx : Nat
+  deriving DecidableEq, Repr
+
+structure RelaRow where
+  offset : Nat
+  sym : Nat
+  type : Nat
+  addend : Int
+  deriving DecidableEq, Repr
+
+structure SegRow where
+  vaddr : Nat
+  offset : Nat
+  data : List Nat
+  deriving DecidableEq, Repr
+
+structure SymTabRow where
+  info : Nat
+  syms : List SymRow
+  deriving DecidableEq, Repr
+
+structure RelaTabRow where
+  target : Nat
+  entries : List RelaRow
+  deriving DecidableEq, Repr
+
+/-- what the examples compare: the reader's view, reduced to the data the property talks about -/
+structure Summary where
+  cls : Cls
+  en : End
+  machine : Nat
+  entry : Nat
+  sections : List SecRow
+  symbols : List SymTabRow
+  relas : List RelaTabRow
+  segments : List SegRow
+  deriving DecidableEq, Repr
+
+def summarize (v : File) : Summary :=
+  { cls := v.cls, en := v.en, machine := v.machine, entry := v.entry,
+    sections := v.sections.map (fun s => ⟨s.name, s.type, s.addr, s.data⟩),
+    symbols := v.symtabs.map (fun t => ⟨t.firstNonLocal, t.syms.map (fun y => ⟨y.name, y.value, y.bind, y.type, y.shndx⟩)⟩),
+    relas := v.relatabs.map (fun t => ⟨t.target, t.entries.map (fun r => ⟨r.offset, r.sym, r.type, r.addend⟩)⟩),
+    segments := v.segments.map (fun s => ⟨s.vaddr, s.offset, s.data⟩) }
+
+inductive Outcome
+  | readBack (s : Summary)
+  | rejected (e : Spec.Elf.Err)
+  | noFile (e : Model.ElfW.Err)
+  deriving DecidableEq, Repr
+
+/-- write, then read with the gABI reader -/
+def outcome (r : Except Model.ElfW.Err (List Nat)) : Outcome :=
+  match r with
+  | .error e => .noFile e
+  | .ok f =>
+    match Spec.Elf.read f with
+    | .error e => .rejected e
+    | .ok v => .readBack (summarize v)
 
 end Proofs.ElfW
